@@ -636,4 +636,44 @@ theorem zip4_proj : ∀ (a : List α) (b : List β) (c : List γ) (d : List δ),
     simp only [List.zip_cons_cons, List.map_cons]
     rw [zip4_proj a b c d (by simpa using h1) (by simpa using h2) (by simpa using h3)]
 
+/-! ### the model has a run: every time array has an accepted sorting permutation -/
+
+theorem gather_of_pairs (ts : List τ) : ∀ (ps : List (τ × Nat)), (∀ p ∈ ps, ts[p.2]? = some p.1) →
+    gather (ps.map (·.2)) ts = ps.map (·.1)
+  | [], _ => by simp [gather]
+  | p :: ps, h => by
+    rw [List.map_cons, gather_cons, h p List.mem_cons_self,
+      gather_of_pairs ts ps (fun q hq => h q (List.mem_cons_of_mem _ hq))]
+    simp
+
+/-- for a total, transitive order the stable merge sort of the positions is an accepted permutation -/
+theorem exists_validPerm (le : τ → τ → Bool) (htrans : ∀ a b c, le a b = true → le b c = true → le a c = true)
+    (htotal : ∀ a b, (le a b || le b a) = true) (ts : List τ) : ∃ perm, validPerm le ts perm = true := by
+  let cmp : τ × Nat → τ × Nat → Bool := fun a b => le a.1 b.1
+  let sorted := ts.zipIdx.mergeSort cmp
+  have hperm : sorted.Perm ts.zipIdx := List.mergeSort_perm _ _
+  have hpw : sorted.Pairwise (fun a b => cmp a b = true) :=
+    List.pairwise_mergeSort (le := cmp) (fun a b c => htrans a.1 b.1 c.1) (fun a b => htotal a.1 b.1) _
+  refine ⟨sorted.map (·.2), ?_⟩
+  have hidx : (sorted.map (·.2)).Perm (List.range ts.length) := by
+    have := hperm.map (·.2)
+    rw [show (ts.zipIdx.map (·.2)) = List.range' 0 ts.length from List.zipIdx_map_snd 0 ts,
+      ← List.range_eq_range'] at this
+    exact this
+  have hg : gather (sorted.map (·.2)) ts = sorted.map (·.1) := by
+    apply gather_of_pairs
+    intro p hp
+    exact List.mem_zipIdx_iff_getElem?.mp (hperm.subset hp)
+  simp only [validPerm, Bool.and_eq_true]
+  constructor
+  · unfold isPermOfRange
+    simp only [Bool.and_eq_true, beq_iff_eq, List.all_eq_true, List.mem_range, List.contains_iff_mem]
+    refine ⟨by simpa using hidx.length_eq, ?_⟩
+    intro i hi
+    exact hidx.mem_iff.mpr (List.mem_range.mpr hi)
+  · rw [hg]
+    apply pairwise_isSorted
+    rw [List.pairwise_map]
+    exact hpw
+
 end Data
